@@ -314,6 +314,25 @@ size_t make_segmentation(size_t n, size_t start, size_t end, size_t epsilon, Fin
     if (end >= start + 2 && in(end - 1) != in(end - 2))
         add_point(in(end - 1), end - 1);
 
+    if (end < n) {
+        // A run of duplicate keys may end at, or continue past, the end of this chunk. The chunks that follow skip the
+        // rest of the run, hence the adjustment for the run (see above) must be done here.
+        auto run_end = end;
+        while (run_end < n && in(run_end) == in(end - 1))
+            ++run_end;
+        if (run_end > end || (end >= start + 2 && in(end - 1) == in(end - 2))) {
+            K next;
+            if constexpr (std::is_floating_point_v<K>)
+                next = std::nextafter(in(end - 1), std::numeric_limits<K>::infinity());
+            else
+                next = in(end - 1) + 1;
+            if (run_end == n)
+                add_point(next, n);
+            else if (next < in(run_end))
+                add_point(next, run_end - 1);
+        }
+    }
+
     if (end == n) {
         // Ensure values greater than the last one are mapped to n
         if constexpr (std::is_floating_point_v<K>) {
